@@ -10,6 +10,7 @@ op   = {"op": "splice", "a": int, "b": int, "new": [text...]}      list[a:b] = n
        {"op": "permute", "a": int, "b": int, "rot": int}               splice a rotation of tokens a..b over a..b
        {"op": "foreign", "a": int, "b": int, "k": int}                 must be refused: token of another store
        {"op": "dup", "a": int, "b": int, "t": int}                     must be refused: token of this store outside a..b
+       {"op": "twice", "ref": int, "text": str, "extra": int}           must be refused: one free token twice in the batch
 All selector ints are reduced modulo the number of candidates in the current state.
 """
 from __future__ import annotations
@@ -69,8 +70,10 @@ def build_history(rnd: Any, max_ops: int, with_update: bool = True, big: bool = 
             op = {'op': 'permute', 'a': rnd.randint(0, 200), 'b': rnd.randint(0, 2 * base), 'rot': rnd.randint(1, 5)}
         elif r < 0.96:
             op = {'op': 'foreign', 'a': rnd.randint(0, 200), 'b': rnd.randint(0, 4), 'k': rnd.randint(0, 200), 'same_shape': rnd.randint(0, 99) < 60}
-        else:
+        elif r < 0.985:
             op = {'op': 'dup', 'a': rnd.randint(0, 200), 'b': rnd.randint(0, 4), 't': rnd.randint(0, 200)}
+        else:
+            op = {'op': 'twice', 'ref': rnd.randint(-1, 200), 'text': rnd.choice(TEXTS), 'extra': rnd.randint(0, 2)}
         case['ops'].append(op)
     return case
 
@@ -214,6 +217,14 @@ def replay(case: dict, after: Callable[[Any, list, Step], Optional[tuple]], toke
                     continue
                 t = outside[op['t'] % len(outside)]
                 call = (lambda a=a, b=b, t=t: store.splice([model[t]], model[a], model[b]))
+            elif kind == 'twice':
+                # one free token object twice in the same batch: must be refused (it cannot be at two positions)
+                step.must_refuse = True
+                expected = list(model)
+                tok = token_cls(op['text'])
+                batch = [tok] + [token_cls('q') for _ in range(op.get('extra', 0))] + [tok]
+                ref = model[op['ref'] % n] if n and op['ref'] >= 0 else None
+                call = (lambda batch=batch, ref=ref: store.insert_after(ref, batch))
             else:
                 continue
             try:
